@@ -121,13 +121,17 @@ func H10_addhardcert() {
 		}
 		vReach("C10.hw-sign-forwarded")
 	}
-	// removal
+	// removal — also when the underlying agent holds the very same certificate
+	if vChoose(2, "also-held-upstream") == 1 {
+		up.ids = append(up.ids, &mwIdent{format: mwCertFormat, blob: mwCertMarshal(crt), comment: "dup"})
+	}
 	if vChoose(2, "remove-all") == 1 {
 		vAssert(s.RemoveAll() == nil, "C10.removeall")
 	} else {
 		vAssert(s.Remove(crt) == nil, "C10.remove-hardware-certificate")
 	}
 	vAssert(!mwMemHas(s, crt), "C10.removed-certificate-disappears")
+	vAssert(!up.has(mwCertMarshal(crt)), "C10.removed-certificate-disappears-upstream")
 	l, _ = s.List()
 	for _, k := range l {
 		vAssert(string(k.Blob) != string(mwCertMarshal(crt)), "C10.removed-certificate-disappears")
